@@ -819,6 +819,11 @@ def main():
         files["Parser.lean"] = text
         done += d3
         fallback = ["%s" % x for x in f3]
+        # filesystemhandler.cpp: containment and dispatch
+        text, d5, f5 = cxx2lean_qt.translate_fs(repo, exp)
+        files["Fs.lean"] = text
+        done += d5
+        failed += f5
         # proxysocket.cpp: the upstream-side slots and the buffering slot, over the model's Proxy.St
         text, d4, f4 = cxx2lean_qt.translate_proxy(repo, exp)
         files["Proxy.lean"] = text
